@@ -21,3 +21,8 @@ Definition f32_fl (o : oracle) : FL f32 :=
      fl_rand := frand; fl_mix := fmix |}.
 
 Definition f32_interval_sem (o : oracle) : Sem (option (interval f32)) f32 := interval_sem (f32_fl o).
+
+(* ---- gradients on f32 ---- *)
+From FV Require Import Grad.
+Definition f32_div_euclid (o : oracle) (a b : f32) : f32 := of_bits (o 10%Z (to_bits a) (to_bits b)).
+Definition f32_grad_sem (o : oracle) : Sem (grad f32) f32 := grad_sem (f32_fl o) (f32_div_euclid o).
